@@ -173,6 +173,16 @@ pub fn fault_in_rehash(t: &Trace) -> bool {
     rehash_points(&c, &r.kind_log).binary_search(&f).is_ok()
 }
 
+/// injection points of a long history outside its first (macro) event: the ordinary events that
+/// follow it (up to 300 calls, evenly spaced) and the final drop (up to 60)
+fn tail_points(kinds: &[(u8, u32)]) -> Vec<u64> {
+    let after: Vec<u64> = kinds.iter().enumerate().filter(|(_, k)| k.1 != 0 && k.1 != u32::MAX).map(|(i, _)| i as u64 + 1).collect();
+    let drop: Vec<u64> = kinds.iter().enumerate().filter(|(i, k)| k.1 == u32::MAX && *i > kinds.len() / 2).map(|(i, _)| i as u64 + 1).collect();
+    let mut v: Vec<u64> = after.iter().step_by((after.len() / 300).max(1)).copied().collect();
+    v.extend(drop.iter().step_by((drop.len() / 60).max(1)).copied());
+    v
+}
+
 fn tag_rehash(out: &mut CaseResult, from: usize) {
     for (v, _) in out.violations.iter_mut().skip(from) {
         if v.prop == "C18" && !v.oracle.ends_with(REHASH_TAG) {
@@ -299,9 +309,18 @@ pub fn run_case(t: &Trace) -> CaseResult {
             let step = (bursts.len() / 160).max(1);
             let mut v: Vec<u64> = bursts.iter().step_by(step).copied().collect();
             v.extend((0..120).map(|_| rs.range(1, n)));
+            v.extend(tail_points(&base.kind_log));
             v.sort_unstable();
             v.dedup();
             out.stats.bump("c18_histories_with_index_rehash");
+            v
+        } else if !base.kind_log.is_empty() {
+            // a long history without an index rehash: the calls of the ordinary events after the
+            // macro event and of the final drop, plus a sample of the macro event's own
+            let mut v: Vec<u64> = (0..200).map(|_| rs.range(1, n)).collect();
+            v.extend(tail_points(&base.kind_log));
+            v.sort_unstable();
+            v.dedup();
             v
         } else {
             let mut v: Vec<u64> = (0..400).map(|_| rs.range(1, n)).collect();
